@@ -1133,6 +1133,31 @@ func genC16(cw *caseWriter, seed uint64, tier string) {
 	for _, h := range hand {
 		emitAccept(cw, nil, []byte(h), true)
 	}
+	// volume: valid objects with very many sibling containers / elements at small depth (a limit that counts
+	// what it should measure, e.g. a depth counter that is not decremented, shows only on such lines)
+	for _, cnt := range []int{12000, 70000} {
+		for _, item := range []string{`[]`, `{}`, `[[1,2]]`, `{"b":[]}`, `1`, `"s"`, `null`} {
+			if cnt > 12000 && len(item) > 2 {
+				continue
+			}
+			vol := `{"a":[` + strings.Repeat(item+",", cnt-1) + item + `]}`
+			emitAccept(cw, nil, []byte(vol), true)
+			emitAccept(cw, nil, []byte(vol[:len(vol)-1]), true)
+			emitAccept(cw, nil, []byte(vol+"]"), true)
+		}
+	}
+	{
+		var kb strings.Builder
+		kb.WriteString(`{`)
+		for i := 0; i < 3000; i++ {
+			if i > 0 {
+				kb.WriteString(",")
+			}
+			fmt.Fprintf(&kb, `"k%d":[%d]`, i, i)
+		}
+		kb.WriteString(`}`)
+		emitAccept(cw, nil, []byte(kb.String()), true)
+	}
 	// declared columns that convert / do not convert
 	typed := []colDesc{{name: "a", format: "numeric", ty: "int"}, {name: "d", format: "date", ty: "none"}}
 	for _, h := range []string{`{"a":1}`, `{"a":"x"}`, `{"a":1.5}`, `{"a":null}`, `{"d":"2021-09-24"}`, `{"d":"nope"}`, `{"a":1,"d":"2021-09-24","z":[]}`, `{"a":"x"} trailing`, `{"a":1} trailing`, `{"z":1,"a":"x"}`} {
